@@ -10,8 +10,9 @@ rm -rf "$C"; mkdir -p "$C"; cp -r "$ROOT/coq/theories" "$ROOT/coq/gen" "$C/"
 for d in "$HERE"/*.diff; do
   n=$(basename "$d" .diff)
   git -C /repo worktree add --detach "$W" HEAD >/dev/null 2>&1
-  # the source has CRLF line ends, the diffs here are stored with LF: strip, patch, restore
-  (cd "$W" && sed -i 's/\r$//' lib_guesser/pcfg_grammar.py && patch -p1 -s < "$d" && sed -i 's/$/\r/' lib_guesser/pcfg_grammar.py) || { echo "$n: patch failed"; git -C /repo worktree remove --force "$W"; continue; }
+  # the sources have CRLF line ends, the diffs here are stored with LF: strip the CRs of the files the diff names, patch, put them back
+  fs=$(sed -n 's|^+++ b/||p' "$d")
+  (cd "$W" && sed -i 's/\r$//' $fs && patch -p1 -s < "$d" && sed -i 's/$/\r/' $fs) || { echo "$n: patch failed"; git -C /repo worktree remove --force "$W"; continue; }
   if PCFG_REPO="$W" /venv/bin/python "$ROOT/harness/translate_expand.py" > "$C/gen/Expand_gen.v" 2> "$C/err.txt"; then
     tr="translated"
     if (cd "$C" && timeout 300 coqc -Q theories Pcfg -Q gen PcfgGen gen/Expand_gen.v >/dev/null 2>"$C/err1.txt" \
